@@ -19,6 +19,7 @@ import (
 	"net"
 	"os"
 	"runtime"
+	"sort"
 	"strings"
 	"sync"
 	"time"
@@ -29,7 +30,9 @@ import (
 
 func main() { Main(runC13) }
 
-const waitLong = 15 * time.Second
+const waitLong = 10 * time.Second
+
+var stuckConfirmed int
 
 var st = map[string]int{}
 
@@ -50,12 +53,82 @@ type world struct {
 	hw      sync.WaitGroup // harness goroutines (start / shutdown callers)
 	stuck   string
 	noReply bool
+
+	// the window between the srv.isStarted() test and the read-deadline region
+	winArmed   map[int]bool
+	winEntered map[int]chan struct{}
+	winRelease map[int]chan struct{}
+}
+
+// windowReader is installed with Server.DecorateReader: its methods run after
+// the caller tested srv.isStarted() and before the default reader takes the
+// read lock and sets the deadline; an armed window holds the thread there.
+type windowReader struct {
+	w *world
+	r dns.Reader
+}
+
+func (x windowReader) hold(id int) {
+	x.w.mu.Lock()
+	armed := x.w.winArmed[id]
+	if armed {
+		x.w.winArmed[id] = false
+	}
+	ent, rel := x.w.winEntered[id], x.w.winRelease[id]
+	x.w.mu.Unlock()
+	if armed {
+		close(ent)
+		<-rel
+	}
+}
+func (x windowReader) ReadTCP(c net.Conn, t time.Duration) ([]byte, error) {
+	if a, ok := c.RemoteAddr().(idAddr); ok {
+		x.hold(a.id)
+	}
+	return x.r.ReadTCP(c, t)
+}
+func (x windowReader) ReadUDP(c *net.UDPConn, t time.Duration) ([]byte, *dns.SessionUDP, error) {
+	return x.r.ReadUDP(c, t)
+}
+func (x windowReader) ReadPacketConn(c net.PacketConn, t time.Duration) ([]byte, net.Addr, error) {
+	x.hold(0)
+	return x.r.(dns.PacketConnReader).ReadPacketConn(c, t)
+}
+func (w *world) arm(id int) {
+	w.mu.Lock()
+	w.winArmed[id] = true
+	w.winEntered[id] = make(chan struct{})
+	w.winRelease[id] = make(chan struct{})
+	w.mu.Unlock()
+}
+func (w *world) waitWindow(id int) {
+	w.mu.Lock()
+	ent := w.winEntered[id]
+	w.mu.Unlock()
+	select {
+	case <-ent:
+	case <-time.After(waitLong):
+		if w.stuck == "" {
+			w.stuck = "the reader did not reach the window between isStarted() and the read"
+		}
+	}
+}
+func (w *world) unhold(id int) {
+	w.mu.Lock()
+	rel := w.winRelease[id]
+	w.winRelease[id] = nil
+	w.mu.Unlock()
+	if rel != nil {
+		close(rel)
+	}
 }
 
 func newWorld(mode string) *world {
-	w := &world{mode: mode, conns: map[int]*fakeConn{}, gates: map[int]chan struct{}{}, cancels: map[int]context.CancelFunc{}, replies: map[int]int{}}
+	w := &world{mode: mode, conns: map[int]*fakeConn{}, gates: map[int]chan struct{}{}, cancels: map[int]context.CancelFunc{}, replies: map[int]int{},
+		winArmed: map[int]bool{}, winEntered: map[int]chan struct{}{}, winRelease: map[int]chan struct{}{}}
 	w.cond = sync.NewCond(&w.mu)
 	w.srv = &dns.Server{Handler: dns.HandlerFunc(w.handler), NotifyStartedFunc: func() { w.log("n") }}
+	w.srv.DecorateReader = func(r dns.Reader) dns.Reader { return windowReader{w, r} }
 	if mode == "tcp" {
 		w.lis = &fakeListener{w: w, queue: make(chan *fakeConn, 64), closed: make(chan struct{}), errs: make(chan error, 8)}
 		w.srv.Listener = w.lis
@@ -602,7 +675,14 @@ func (w *world) settle(name string, base int, plan []string) {
 //   D<j> Shutdown call j, wait until its lock region has run       d<j> same without waiting
 //   K<j> ShutdownContext call j (cancellable)                      k<j> cancel its context
 //   T    inject a temporary accept / read error                    W<e> wait for event e
+//   P<c> arm the window of reader c (0 = the UDP serve loop): its next read is held between the
+//        srv.isStarted() test and the read-deadline region      V<c> wait until it is there   U<c> let it go
+//   s<i> start call without waiting                                Z    Shutdown calls until one finds the server started
 func runPlan(mode, name string, plan []string, attempt int) bool {
+	if stuckConfirmed >= 2 {
+		st["scenarios_skipped_after_confirmed_hangs"]++
+		return false
+	}
 	base := runtime.NumGoroutine()
 	w := newWorld(mode)
 	reqCount := map[int]int{}
@@ -662,6 +742,12 @@ func runPlan(mode, name string, plan []string, attempt int) bool {
 			}
 		case 'W':
 			w.waitFor(op[1:], 1)
+		case 'P':
+			w.arm(a)
+		case 'V':
+			w.waitWindow(a)
+		case 'U':
+			w.unhold(a)
 		case 's':
 			w.start(a)
 		case 'Z':
@@ -692,7 +778,10 @@ func runPlan(mode, name string, plan []string, attempt int) bool {
 			shut = true
 		}
 	}
-	// let everything finish: release every handler that may still be entered
+	// let everything finish: open every window, release every handler that may still be entered
+	for id := range w.winRelease {
+		w.unhold(id)
+	}
 	for id := range reqCount {
 		for i := 0; i < 4; i++ {
 			w.release(id)
@@ -715,6 +804,7 @@ func runPlan(mode, name string, plan []string, attempt int) bool {
 			}
 			return runPlan(mode, name, plan, 1)
 		}
+		stuckConfirmed++
 		Viol("C13/stuck", "scenario stuck twice: "+w.stuck, map[string]any{"scenario": name, "mode": mode, "plan": plan, "events": w.events()})
 		return false
 	}
@@ -765,7 +855,7 @@ func runC13(r *Rng, tier string, n int) {
 			ms := merges(seqs)
 			for mi, m := range ms {
 				for pos := 0; pos <= len(m); pos++ {
-					if !thorough && k == 2 && mode == "tcp" && (mi+pos)%3 != 0 {
+					if !thorough && k == 2 && mode == "tcp" && (mi+pos)%2 != 0 {
 						continue
 					}
 					plan := append([]string{"S0"}, m[:pos]...)
@@ -804,13 +894,32 @@ func runC13(r *Rng, tier string, n int) {
 			// Shutdown racing with start: called right after the start call, no waiting
 			"shutdown-right-after-start": {"s0", "Z", "Wsr.0"},
 		}
-		for name, plan := range sp {
+		if mode == "tcp" {
+			// Shutdown falls between a connection's isStarted() test and its read: the deadline
+			// Shutdown set must not be overridden (first read, and the read after a request)
+			sp["shutdown-in-read-window"] = []string{"S0", "P1", "C1", "V1", "D0", "U1", "Wdr.0.0", "Wsr.0"}
+			sp["shutdown-in-read-window-2"] = []string{"S0", "C1", "Q1", "P1", "R1", "V1", "C2", "Q2", "D0", "U1", "R2", "Wdr.0.0", "Wsr.0"}
+		} else {
+			sp["shutdown-in-read-window"] = []string{"P0", "S0", "V0", "D0", "U0", "Wdr.0.0", "Wsr.0"}
+			sp["shutdown-in-read-window-2"] = []string{"S0", "P0", "Q1", "V0", "D0", "U0", "R1", "Wdr.0.0", "Wsr.0"}
+		}
+		if mode == "udp" {
+			// every UDP packet is its own worker
+			sp["two-requests"] = []string{"S0", "Q1", "R1", "Q2", "D0", "R2", "Wdr.0.0", "Wsr.0"}
+		}
+		var names []string
+		for name := range sp {
+			names = append(names, name)
+		}
+		sort.Strings(names)
+		for _, name := range names {
+			plan := sp[name]
 			runPlan(mode, name, plan, 0)
 			st["family_special"]++
 		}
 	}
 	// ---- C. unsynchronised runs: requests, releases and Shutdown race for real
-	nRace := 60
+	nRace := 100
 	if thorough {
 		nRace = 1500
 	}
@@ -819,7 +928,10 @@ func runC13(r *Rng, tier string, n int) {
 		if r.Bool() {
 			mode = "udp"
 		}
-		k := 1 + r.Intn(4)
+		k := 1 + r.Intn(3)
+		if thorough {
+			k = 1 + r.Intn(4)
+		}
 		var seqs [][]string
 		for c := 1; c <= k; c++ {
 			s := []string{fmt.Sprintf("q%d", c), fmt.Sprintf("R%d", c)}
